@@ -1,5 +1,6 @@
 import Glom.Lemmas.C17
 import Glom.Spec.C17Args
+import Glom.Spec.C17Events
 /-
   C17 — what a prefix of the input determines stays determined: the trace functions are monotone,
   so the items determined by ANY prefix of a source are a prefix of what the composition of the list
@@ -161,6 +162,41 @@ theorem checkAll_sound (kinds : List Kind) (hw : ∀ k ∈ kinds, k.wf = true) (
     · exact ⟨h2', h1⟩
   · revert h3
     cases o.fin <;> simp
+
+/-! ### events: up to the first exception the event stream is the trace -/
+
+/-- a trace as the events a consumer sees -/
+def Tr.events (t : Tr) : List Evt :=
+  t.items.map .item ++ (match t.term with | .err e => [.err e] | _ => [])
+
+theorem Tr.events_prepend (o : List V) (t : Tr) : (t.prepend o).events = o.map .item ++ t.events := by
+  simp [Tr.events, Tr.prepend, List.append_assoc]
+
+/-- a stage keeps its kind -/
+theorem push_kind (c : Core) (x : V) : (c.push x).2.1.kind = c.kind := by
+  unfold Core.push
+  split <;> (try simp only []) <;> (repeat' split) <;> (first | rfl | simp_all)
+
+/-- a stage that does not survive an exception: on an exception-free input its events are its trace — the items, then
+    the exception it ends with, then nothing (up to the first exception the event reference IS the trace reference) -/
+theorem evFold_eq_trace : ∀ (us : List V) (c : Core), c.kind.survives = false →
+    evFold c (us.map .item) = (foldCore c us .eof).events := by
+  intro us
+  induction us with
+  | nil => intro c _; simp [evFold, foldCore, Tr.events]
+  | cons u us ih =>
+    intro c hs
+    simp only [List.map_cons, evFold, foldCore]
+    have hkind := push_kind c u
+    rcases hp : c.push u with ⟨o, c', st⟩
+    rw [hp] at hkind
+    simp only at hkind
+    cases st with
+    | go =>
+      simp only
+      rw [Tr.events_prepend, ih c' (by rw [hkind]; exact hs)]
+    | stop => simp [Tr.events]
+    | fail e => simp [Tr.events, hs]
 
 /-! ### a callback that raises inside `glomit` -/
 
